@@ -1809,6 +1809,12 @@ def c11(rep, W, rule="C11"):
             ts_ok = any(x[0] == "call" and x[1] == "chrono::offset::TimeZone::timestamp_opt" and m(pat.const(val=0), x[3][2]) is not None for x in P.walk(ms["t"]))
             rep.ob(rule + ".META", (short_fn(cl), "timestamp-seconds"), ts_ok, "timestamp is decoded with timestamp_opt(seconds, 0) (seconds in, seconds out)", where(cl))
     rep.floor(rule + ".META", "get_client Some(snapshot) outcomes", nsome, 1, where(cl))
+    # a client that never stored a snapshot has NULLs there: the three columns must be read as Option<_>
+    for key, ty, bb, term in selc[0].site.rows:
+        col = sel_list[key] if isinstance(key, int) and key < len(sel_list) else key
+        if col in ("snapshot_version_id", "snapshot_timestamp", "versions_since_snapshot"):
+            rep.ob(rule + ".META", (short_fn(cl), "null-tolerant", col), ty.startswith("core::option::Option<"),
+                   "column %s is read as %s; it is NULL until a snapshot is stored, so it must be read as Option<_> (GetSnapshot answers not-found, not an error)" % (col, ty), where(cl))
 
 
 def pat_tuple(*items):
